@@ -8,6 +8,7 @@ import (
 	"strings"
 
 	"github.com/ChrisTrenkamp/xsel/node"
+	"github.com/ChrisTrenkamp/xsel/parser"
 	"github.com/ChrisTrenkamp/xsel/store"
 
 	"verif/model"
@@ -24,6 +25,7 @@ type config struct {
 	Deep       bool
 	Wide       bool
 	Undeclare  bool
+	Collide    bool // names repeat (siblings, attributes with one local name in several namespaces)
 }
 
 type gen struct {
@@ -62,7 +64,12 @@ func (g *gen) leaf() {
 
 func (g *gen) element(depth int) {
 	id := g.nid()
-	g.events = append(g.events, simio.Event{Node: &simio.SElem{ID: id, SpaceV: []string{"", "urn:a"}[g.t.Draw(2)], Name: fmt.Sprintf("e%d", id)}})
+	ename := fmt.Sprintf("e%d", id)
+	if g.cfg.Collide {
+		// same names again and again: siblings, parent and child, attribute and element
+		ename = []string{"e", "item", "a", "lang"}[g.t.Draw(4)]
+	}
+	g.events = append(g.events, simio.Event{Node: &simio.SElem{ID: id, SpaceV: []string{"", "urn:a"}[g.t.Draw(2)], Name: ename}})
 	if g.cfg.Namespaces {
 		n := g.t.Pick(3, 3, 2, 1)
 		used := map[string]bool{}
@@ -84,9 +91,24 @@ func (g *gen) element(depth int) {
 	if g.cfg.Wide && g.t.Bool(1, 3) {
 		na = 3 + g.t.Draw(14)
 	}
+	usedAttr := map[string]bool{}
 	for i := 0; i < na; i++ {
 		aid := g.nid()
-		g.events = append(g.events, simio.Event{Node: &simio.SAttr{ID: aid, Name: fmt.Sprintf("a%d", aid), Val: fmt.Sprintf("v%d", aid)}})
+		a := &simio.SAttr{ID: aid, Name: fmt.Sprintf("a%d", aid), Val: fmt.Sprintf("v%d", aid)}
+		if g.cfg.Collide {
+			// one local name in several namespaces (href + xlink:href, lang + xml:lang):
+			// distinct expanded names, so a conforming parser may emit them together
+			a.Name = []string{"a", "href", "lang", "e"}[g.t.Draw(4)]
+			a.SpaceV = []string{"", "urn:a", "urn:b", "http://www.w3.org/XML/1998/namespace"}[g.t.Draw(4)]
+			if usedAttr[a.SpaceV+" "+a.Name] {
+				continue
+			}
+			usedAttr[a.SpaceV+" "+a.Name] = true
+			if g.t.Bool(1, 3) {
+				a.Val = "v" // equal values too
+			}
+		}
+		g.events = append(g.events, simio.Event{Node: a})
 	}
 	if g.cfg.Deep && depth < g.cfg.MaxDepth && len(g.events) < g.cfg.MaxEvents {
 		// a spine: mostly one child, to reach depth
@@ -125,6 +147,7 @@ func generate(t *simkit.Tape) (*gen, config) {
 	cfg.Deep = t.Bool(1, 12)
 	cfg.Wide = t.Bool(1, 6)
 	cfg.Undeclare = t.Bool(1, 3)
+	cfg.Collide = t.Bool(1, 3)
 	if cfg.Deep {
 		cfg.MaxDepth = 40 + t.Draw(160)
 		cfg.MaxEvents = 2000
@@ -277,6 +300,36 @@ func identity(o *simkit.Outcome, hist string, c store.Cursor, r *refNode, path s
 }
 
 // Run is the C10 history engine.
+// nestParser builds another document with the store from inside Pull.
+type nestParser struct {
+	inner  parser.Parser
+	events []simio.Event
+	at     map[int]bool
+	pulls  int
+	built  []nestedBuild
+}
+
+type nestedBuild struct {
+	c   store.Cursor
+	err error
+	pan string
+}
+
+func (n *nestParser) Pull() (node.Node, bool, error) {
+	n.pulls++
+	if n.at[n.pulls] {
+		c, err, pan := safeCreate(nil, func() (store.Cursor, error) {
+			m, e := store.CreateInMemory(&simio.ScriptParser{Events: n.events})
+			if m == nil {
+				return nil, e
+			}
+			return m, e
+		})
+		n.built = append(n.built, nestedBuild{c, err, pan})
+	}
+	return n.inner.Pull()
+}
+
 func Run(t *simkit.Tape, o *simkit.Outcome, full bool) {
 	const P = "C10"
 	g, cfg := generate(t)
@@ -285,7 +338,20 @@ func Run(t *simkit.Tape, o *simkit.Outcome, full bool) {
 		o.Scenario = map[string]any{"config": cfg, "history": hist, "events": len(g.events)}
 	}
 	o.Steps += len(g.events)
-	sp := &simio.ScriptParser{Events: g.events}
+	var sp parser.Parser = &simio.ScriptParser{Events: g.events}
+	// A conforming parser may itself use the store while it is being pulled (a
+	// parser that resolves an inclusion by building the included document): at
+	// 1-3 drawn pull counts a complete second history is built inside Pull.
+	var nested *nestParser
+	if t.Bool(1, 4) && len(g.events) > 2 {
+		gi, _ := generate(t)
+		nested = &nestParser{inner: sp, events: gi.events, at: map[int]bool{}}
+		for k := 1 + t.Draw(3); k > 0; k-- {
+			nested.at[1+t.Draw(len(g.events))] = true
+		}
+		sp = nested
+		o.Fault("build-nested-inside-pull")
+	}
 	c, err, pan := safeCreate(nil, func() (store.Cursor, error) {
 		m, e := store.CreateInMemory(sp)
 		if m == nil {
@@ -322,6 +388,23 @@ func Run(t *simkit.Tape, o *simkit.Outcome, full bool) {
 		o.Violate(P, "shape", "shape", "tree differs from the reference model: %s\nhistory: %s", model.FirstDiff(want, got), hist)
 	} else {
 		identity(o, hist, c, ref, "")
+	}
+	if nested != nil {
+		for _, in := range nested.built {
+			o.Evals++
+			if in.pan != "" || in.err != nil || in.c == nil {
+				o.Violate(P, "conforming-history-rejected", "nested-build-failed", "a CreateInMemory running inside another build's Pull failed: %v %s\ninner history: %s", in.err, in.pan, renderEvents(nested.events))
+				continue
+			}
+			refIn := fold(nested.events)
+			sn := model.Snap(in.c)
+			for _, p := range sn.Problems {
+				o.Violate(P, "structure", "structure:nested-build:"+p.Sig, "tree built inside another build's Pull: %s\ninner history: %s\nouter history: %s", p.Detail, renderEvents(nested.events), hist)
+			}
+			if w, gg := refIn.n.Render(true, true), sn.Tree.Render(true, true); w != gg {
+				o.Violate(P, "shape", "shape:nested-build", "tree built inside another build's Pull differs from the reference model: %s\ninner history: %s\nouter history: %s", model.FirstDiff(w, gg), renderEvents(nested.events), hist)
+			}
+		}
 	}
 	// a later, unrelated build must not disturb this tree (allocator / pool state)
 	if t.Bool(1, 3) && len(o.Violations) == 0 {
